@@ -35,4 +35,9 @@ TEXTS["C06"] = {
     "note": "Real Status/StatusAll/localStatus/TrackerStatus.Match and globalPinInfo code from /repo; the daemon is the model behind the IPFSConnector RPC service. Oracle decisions (class-level agreement, mode-mismatch entries) are listed in the evidence assumptions.",
     "technique": "property-based testing with a truth-table oracle and a metamorphic filter law (rapid)",
 }
+TEXTS["C14"] = {
+    "level": "Generated-input round-trips over pinsets of all well-formed pins: State.Marshal/Unmarshal; export of pinset A imported over a manager holding pinset B through the real cmdutils state managers (Raft with file snapshots, CRDT over real badger and leveldb); SnapshotSave then OfflineState/LastStateRaw; a model-based state machine over CleanupRaft with generated retention and pre-existing backup folders; peerstore save/load/import with priorities, and peerstore files with malformed lines. Exploration level.",
+    "note": "Real cmdutils, dsstate, consensus/raft snapshot helpers, pstoremgr from /repo, on temp directories. Starting a live peer on a saved snapshot is covered under C01's harness.",
+    "technique": "property-based round-trip testing and a model-based state machine for backup rotation (rapid)",
+}
 PENDING = {}
